@@ -27,6 +27,7 @@ func runC13(c *Ctx) {
 	wholeSliceToStream(c, c.P, "R4", "transports/obfs3:(*obfs3Conn).Write")
 	wholeSliceFromStream(c, c.P, "R4", "transports/obfs3:(*obfs3Conn).Read")
 	obfs3RewireOnAnyRead(c, c.P, "R4")
+	obfs3PaddingLimitOnIndex(c, c.P, "R4")
 	noBackgroundConnWrites(c, c.P, newConnIO(c.P), "R4", "transports/obfs3")
 	if !importing {
 		importObls(c, "C10", runC10, "X10", func(k string) bool { return containsAny(k, "transports/obfs3", "common/uniformdh") })
@@ -723,5 +724,51 @@ func obfs3RewireOnAnyRead(c *Ctx, p *Prog, rule string) {
 		ob.Violate("%s", bad)
 	default:
 		ob.HoldNT("%d switch site(s), independent of rxMagic", n)
+	}
+}
+
+// obfs3PaddingLimitOnIndex: the "too much padding" verdict compares the position at which the magic was found
+// with MAX_PADDING — the position itself, before the magic's own length is added to it (a conforming peer may
+// use the whole allowance).
+func obfs3PaddingLimitOnIndex(c *Ctx, p *Prog, rule string) {
+	const key = "transports/obfs3:(*obfs3Conn).findPeerMagic"
+	ob := c.Obl(rule, key+"#limit-on-position", "the padding limit is tested on the result of bytes.Index itself (pos > maxPadding), not on a value to which the magic's length was already added")
+	fn := p.Func(key)
+	if fn == nil {
+		ob.Undecide("not found")
+		return
+	}
+	n := 0
+	bad := ""
+	allInstrs(fn, func(in ssa.Instruction) {
+		bo, ok := in.(*ssa.BinOp)
+		if !ok || (bo.Op != token.GTR && bo.Op != token.GEQ && bo.Op != token.LSS && bo.Op != token.LEQ) {
+			return
+		}
+		x, y := bo.X, bo.Y
+		if _, isC := x.(*ssa.Const); isC {
+			x, y = y, x
+		}
+		k, ok := intConst(y)
+		if !ok || (k != 8194 && k != 8195) {
+			return
+		}
+		// only comparisons of a position (derived from bytes.Index), not of the buffer length
+		cl, _ := callOf(unspill(x))
+		if cl != nil && p.CalleeID(cl.Common()) == "(*bytes.Buffer).Len" {
+			return
+		}
+		n++
+		if cl == nil || p.CalleeID(cl.Common()) != "bytes.Index" {
+			bad = "the value compared with the limit at " + p.InstrPos(in) + " is not the bytes.Index result itself"
+		}
+	})
+	switch {
+	case bad != "":
+		ob.Violate("%s", bad)
+	case n == 0:
+		ob.Undecide("no comparison of the magic's position with MAX_PADDING found")
+	default:
+		ob.HoldNT("pos > maxPadding on the index itself")
 	}
 }
